@@ -191,8 +191,11 @@ func c11ReadOnly(t c11Target, seq []int) *core.Finding {
 	desc := gen.Schemas[t.Type].Describe(t.Vec)
 	roots := append([]any{q}, globalsRoots()...)
 	d0 := stateDigest(roots...)
+	// initial observations, accessors first: the initial String/Dump/WriteTo
+	// calls are themselves operations that must not change anything
+	obs0 := flatKV(observeKV(q))
+	obs0 += "|" + q.String() + "|" + dumpOf(q)
 	first, _, _, _ := writePacket(q, 0)
-	obs0 := flatKV(observeKV(q)) + "|" + q.String() + "|" + dumpOf(q)
 	names := []string{}
 	for _, oi := range seq {
 		op := c11Ops[oi]
